@@ -22,6 +22,7 @@ pub const LOG_SCHED: u64 = 4; // (mi, state): schedule_action
 pub const LOG_SIGSET: u64 = 5; // (mi, 0): machine transitioned to STATE_SIGNAL
 pub const LOG_SIGDELIVER: u64 = 6; // (mi, 0): Signal delivered to mi
 pub const LOG_CZERO: u64 = 7; // (mi, 0): CounterZero raised
+pub const LOG_CHANGE: u64 = 8; // (mi, state): the machine changes to a different state
 
 #[derive(Default, Debug, Clone)]
 pub struct Recorder {
